@@ -3,6 +3,7 @@ package bubble
 import (
 	"context"
 	"math/rand"
+	"runtime"
 	"sync"
 	"sync/atomic"
 	"testing"
@@ -172,34 +173,40 @@ func runGroup(t *testing.T, steps []grpStep) ([]Ev, bool, string) {
 func groupStopRace(w *traceWriter, runs *int, trials int) {
 	for i := 0; i < trials; i++ {
 		g := xsync.NewGroup(context.Background())
-		var returned, late atomic.Bool
+		var returned, late, stop atomic.Bool
+		var started atomic.Int32
 		var wg sync.WaitGroup
-		stop := make(chan struct{})
 		for j := 0; j < 8; j++ {
 			wg.Add(1)
 			go func() {
 				defer wg.Done()
-				for {
-					select {
-					case <-stop:
-						return
-					default:
-					}
+				first := true
+				for !stop.Load() {
 					g.Do(func(ctx context.Context) {
 						if returned.Load() {
 							late.Store(true)
 						}
 					})
+					if first {
+						first = false
+						started.Add(1)
+					}
 				}
 			}()
 		}
-		time.Sleep(20 * time.Microsecond)
+		for started.Load() < 8 { // every hammer is registering functions by now
+			runtime.Gosched()
+		}
+		for k := 0; k < i%40; k++ { // vary the moment of the stop
+			runtime.Gosched()
+		}
 		g.StopAndWait()
 		returned.Store(true)
-		time.Sleep(50 * time.Microsecond)
-		close(stop)
+		for k := 0; k < 30 && !late.Load(); k++ { // a function started behind the barrier gets time to run
+			runtime.Gosched()
+		}
+		stop.Store(true)
 		wg.Wait()
-		time.Sleep(20 * time.Microsecond)
 		if !late.Load() && i%100 != 0 {
 			continue
 		}
